@@ -52,7 +52,54 @@ def n_cases(tier):
     return N[tier]
 
 
+DISC_SRC = """
+import typing
+from typing import Literal, Union, Optional, List
+import utype
+from utype import Schema, DataClass, Field, Options
+class A({base}):
+    kind: Literal['a']
+    x: int
+class B({base}):
+    kind: Literal['b']
+    y: str = ''
+class H({base}):
+    __options__ = Options(**OPTS)
+    item: Union[A, B] = Field(discriminator='kind')
+    members: List[Union[A, B]] = Field(default_factory=list)
+    opt: Optional[Union[A, B]] = Field(discriminator='kind', default=None)
+"""
+
+
+def make_disc_case(rng):
+    """a union of data classes selected by a discriminator key: any value whatsoever under that key (and any value in place of the
+    member mapping) is input"""
+    inputs = []
+    for _ in range(12):
+        kv = V.pick(rng, None)[1] if rng.random() < 0.7 else (lambda v=rng.choice(["a", "b", 2, "c", None, "A"]): v)
+        body = rng.choice([{"x": 1}, {"x": "1", "y": 2}, {"y": "s"}, {}])
+        shape = rng.randrange(5)
+
+        def mk(kv=kv, body=body, shape=shape):
+            k = kv()
+            member = dict(body, kind=k)
+            if shape == 0:
+                return {"item": member}
+            if shape == 1:
+                return {"item": {"kind": "a", "x": 1}, "opt": member}
+            if shape == 2:
+                return {"item": {"kind": "a", "x": 1}, "members": [member, {"kind": "b"}]}
+            if shape == 3:
+                return {"item": k}            # the member itself is the hostile value
+            return {"item": body}             # discriminator key missing
+        inputs.append(mk)
+    return {"fam": "disc", "base": rng.choice(["Schema", "DataClass"]), "opts": dict(rng.choice(OPTS)), "inputs": inputs, "rng": rng,
+            "spec": ("leaf", "int"), "route": "disc"}
+
+
 def make_case(i, rng, tier):
+    if rng.random() < 0.04:
+        return make_disc_case(rng)
     depth = rng.choice([0, 1, 2, 2, 3]) if tier == "quick" else rng.choice([0, 1, 2, 2, 3, 3, 4])
     spec = TS.gen_spec(rng, depth, allow_lax=rng.random() < 0.2, abstract=rng.random() < 0.3,
                        dc=lambda r, d: TS.gen_dc(r, max(0, min(d, 1))))
@@ -88,12 +135,25 @@ def run_case(case, ctx):
     b = TS.Builder(case["rng"])
     try:
         try:
-            ann = b.annotation(spec)
-            from utype import Rule
+            if case.get("fam") == "disc":
+                ctx.count("discriminated_union_cases")
+                from ..routes import Entry
+                ns = {"OPTS": {k: v for k, v in opts.items() if k != "max_errors" or opts.get("collect_errors")}}
+                exec(DISC_SRC.format(base=case["base"]), ns)
+                Hcls = ns["H"]
+                for c in (ns["A"], ns["B"], Hcls):
+                    b.created.append(c)
+                entry = Entry(lambda x: Hcls.__from__(x), judged=True)
+                spec = ("dc-with-discriminated-union", case["base"])
+            else:
+                ann = b.annotation(spec)
+                from utype import Rule
 
-            T = Rule.parse_annotation(ann)
-            entry = make_entry(route, ann, T, opts, wrap_bare=True)
+                T = Rule.parse_annotation(ann)
+                entry = make_entry(route, ann, T, opts, wrap_bare=True)
         except Exception as e:
+            if case.get("fam") == "disc":
+                raise  # a fixed, legal declaration: failing to build it is a harness error, not a rejected declaration
             ctx.count("declaration_rejected:" + type(e).__name__)
             return
         if entry.cls is not None:
